@@ -122,6 +122,9 @@ int radmsg_copy_attrs(struct radmsg *dst,
     struct list *list = radmsg_getalltype(src, type);
     int n = 0;
 
+    if (!list) /* nothing could be collected: not "no such attribute", which is an empty list */
+        return -1;
+
     for (node = list_first(list); node; node = list_next(node)) {
         struct tlv *copy = copytlv((struct tlv *)node->data);
         if (radmsg_add(dst, copy, 0) != 1) {
